@@ -47,7 +47,17 @@ class Shape:
     # ------------------------------------------------------------------
     def _block(self, stmts: List[ast.stmt]) -> List[Event]:
         out: List[Event] = []
-        for st in stmts:
+        for idx, st in enumerate(stmts):
+            if isinstance(st, ast.If) and st.body and isinstance(st.body[-1], ast.Return) and not st.orelse:
+                # early return: what follows happens only on the other outcome
+                out.extend(self._expr(st.test))
+                a = self._block(st.body)
+                rest = self._block(stmts[idx + 1:])
+                if a == rest:
+                    out.extend(a)
+                else:
+                    out.append(("alt", tuple(a), tuple(rest)))
+                return out
             out.extend(self._stmt(st))
         return out
 
